@@ -1,7 +1,7 @@
 (* C16 -- non-vacuity: concrete non-trivial inputs meet the hypotheses of the theorems
    (R := Z), and the two sides of each statement evaluate to the same non-zero numbers. *)
 From Coq Require Import List Arith ZArith Lia.
-From Verif.C16 Require Import Model Proofs Cases.
+From Verif.C16 Require Import Model Proofs Proofs2 Cases.
 Import ListNotations.
 Open Scope Z_scope.
 
@@ -81,4 +81,66 @@ Proof. vm_compute. auto. Qed.
 Example ex_linops_value :
   to_list (apply_kronecker_linops Z zO Z.add Z.mul [A 2 2 [1;2;3;4]; A 2 2 [1;0;2;1]] (zarr [4;2]%nat [1;2;3;4;5;6;7;8]))
   = [11; 14; 39; 48; 23; 30; 83; 104].
+Proof. vm_compute. reflexivity. Qed.
+
+(* ---- second part: Kronecker / grid / solver theorems ---- *)
+(* kron_dense_spec, kron_operator_spec: 2x3 (x) 2x2, flat index *)
+Definition ex_kops : list (operand Z) := [D 2 3 [1;2;3;4;5;6]; A 2 2 [1;0;2;1]].
+Example ex_kron_shape : ashape Z (zarr [6]%nat [1;2;3;4;5;6]) = [prodl (map (fun o => mcols Z (omat Z o)) ex_kops)].
+Proof. reflexivity. Qed.
+Example ex_kron_value :
+  aat Z (kronecker_operator Z zO Z.add Z.mul ex_kops (zarr [6]%nat [1;2;3;4;5;6])) [3%nat] = 162 /\
+  sumn Z zO Z.add 6 (fun j => kron_ent Z 1 Z.mul (map (omat Z) ex_kops) 3 j * aat Z (zarr [6]%nat [1;2;3;4;5;6]) [j]) = 162.
+Proof. vm_compute. auto. Qed.
+
+(* kron_linops_spec / kron_transpose: square abstract factors *)
+Definition ex_sq : list (operand Z) := [A 2 2 [1;2;3;4]; A 3 3 [1;0;2;0;1;0;1;1;1]].
+Example ex_squares : squares Z ex_sq.
+Proof. repeat constructor. Qed.
+
+(* modek_tprod_spec *)
+Example ex_modek_tprod_inr :
+  inr (remove_at 1 [1;1;0]%nat) (remove_at 1 (ashape Z (zarr [2;3;2]%nat [1;2;3;4;5;6;7;8;9;10;11;12]))).
+Proof. repeat constructor. Qed.
+
+(* grid_block_spec: 2x2 grid with a null block *)
+Definition ex_grid : list (list (option (mat Z))) :=
+  [[Some (zmat 1 2 [1;2]); None]; [Some (zmat 2 2 [1;0;0;1]); Some (zmat 2 1 [5;6])]].
+Example ex_wf_grid : wf_grid Z ex_grid [1;2]%nat [2;1]%nat.
+Proof. repeat constructor. Qed.
+Example ex_grid_rows : forall b, In b (block_operator Z ex_grid [1;2]%nat [2;1]%nat) ->
+  (pro Z b + mrows Z (pb Z b) <= suml [1;2]%nat)%nat.
+Proof. intros b [<-|[<-|[<-|[]]]]; simpl; lia. Qed.
+
+(* kron_solver_inverts: B = [[1,1],[0,1]] (x) [[1,0],[2,1]] with their integer inverses *)
+Definition ex_Bs : list (mat Z) := [zmat 2 2 [1;1;0;1]; zmat 2 2 [1;0;2;1]].
+Definition ex_Binvs : list (operand Z) := [A 2 2 [1;-1;0;1]; A 2 2 [1;0;-2;1]].
+Example ex_compat : compat Z ex_Bs (map (omat Z) ex_Binvs).
+Proof. repeat constructor. Qed.
+Example ex_deltas : deltas Z 0 1 (mmuls Z zO Z.add Z.mul ex_Bs (map (omat Z) ex_Binvs)).
+Proof.
+  repeat constructor; simpl; intros i l Hi Hl;
+    (destruct i as [|[|i]]; [| |lia]); (destruct l as [|[|l]]; [| |lia]); reflexivity.
+Qed.
+Example ex_solver_value :
+  map (fun i => sumn Z zO Z.add 4 (fun j => kron_ent Z 1 Z.mul ex_Bs i j *
+         aat Z (kronecker_operator Z zO Z.add Z.mul ex_Binvs (zarr [4]%nat [1;2;3;4])) [j])) [0;1;2;3]%nat = [1;2;3;4].
+Proof. vm_compute. reflexivity. Qed.
+
+(* fastdiag_inverts: two directions; eigenvalues (1,-1) and (0,0) so that the eigenvalue sums
+   are invertible over Z; U = the 2x2 exchange matrix, M = I *)
+Definition ex_f1 : eigfac Z := mkeig Z (zmat 2 2 [-1;0;0;1]) (zmat 2 2 [1;0;0;1]) (zmat 2 2 [0;1;1;0]) (zvec [1;-1]) 2.
+Definition ex_f2 : eigfac Z := mkeig Z (zmat 2 2 [0;0;0;0]) (zmat 2 2 [1;0;0;1]) (zmat 2 2 [0;1;1;0]) (zvec [0;0]) 2.
+Example ex_eig_ok : Forall (eig_ok Z 0 1 Z.add Z.mul) [ex_f1; ex_f2].
+Proof.
+  repeat constructor; simpl; intros i l Hi Hl;
+    (destruct i as [|[|i]]; [| |lia]); (destruct l as [|[|l]]; [| |lia]); reflexivity.
+Qed.
+Example ex_dinv : forall c, (c < prodl (sizes Z [ex_f1; ex_f2]))%nat ->
+  diag_ev Z zO Z.add [ex_f1; ex_f2] c * zvec [1;1;-1;-1] c = 1.
+Proof. intros c Hc. simpl in Hc. do 4 (destruct c as [|c]; [reflexivity|]). lia. Qed.
+Example ex_fastdiag_value :
+  map (fun i => sumn Z zO Z.add 4 (fun j => lap_ent Z 0 1 Z.add Z.mul [ex_f1; ex_f2] i j *
+         aat Z (fastdiag_apply Z zO Z.add Z.mul [D 2 2 [0;1;1;0]; D 2 2 [0;1;1;0]] (zvec [1;1;-1;-1]) (zarr [4]%nat [1;2;3;4])) [j]))
+      [0;1;2;3]%nat = [1;2;3;4].
 Proof. vm_compute. reflexivity. Qed.
